@@ -315,6 +315,49 @@ impl<'a> G<'a> {
             if self.cfg.probe_funds && !funds.is_empty() {
                 p.acts.insert(1, Action::Q(QAct::Balance(ct.clone(), funds[0].denom.clone())));
             }
+            if self.cfg.probe_funds && !self.contracts.is_empty() && self.rng.chance(1, 4) {
+                // bias (this flag only): the first sub-message sends funds to a contract whose body fails, and the failure is
+                // reported back to the dispatcher
+                if let Output::Resp { subs, .. } = &mut p.out {
+                    let callee = self.rng.pick(&self.contracts).clone();
+                    let node = self.node();
+                    let fp = Prog { node, acts: vec![Action::Write(format!("m{}", node).into_bytes(), vec![1])], out: Output::Fail };
+                    let ro = if self.rng.chance(2, 3) { ReplyOnS::Always } else { ReplyOnS::Error };
+                    let amount = 1 + self.rng.below(3) as u128;
+                    let m = Msg::Exec { c: callee, p: fp, funds: vec![CoinS { denom: "uatom".into(), amount }] };
+                    let on_ok = self.prog(depth + 1, false);
+                    let on_err = self.prog(depth + 1, false);
+                    subs.insert(0, Sub { id: 3, payload: vec![], ro, m: Box::new(m), on_ok, on_err });
+                }
+            }
+            if self.cfg.probe_funds {
+                // C05 clause 8 ("funds are returned if the call fails"): when the FIRST sub-message carries funds and its
+                // failure is reported back (Error / Always), the dispatching body and the failure handler both start by
+                // asking for the dispatcher's own balance in the first attached denomination
+                let den = match &p.out {
+                    Output::Resp { subs, .. } => subs.first().and_then(|sb| {
+                        if !matches!(sb.ro, ReplyOnS::Error | ReplyOnS::Always) {
+                            return None;
+                        }
+                        match &*sb.m {
+                            Msg::Exec { funds: f, .. } | Msg::Inst { funds: f, .. } if !f.is_empty() => Some(f[0].denom.clone()),
+                            _ => None,
+                        }
+                    }),
+                    _ => None,
+                };
+                if let Some(den) = den {
+                    let probe = Action::Q(QAct::Balance(ct.clone(), den));
+                    if funds.is_empty() {
+                        p.acts.insert(1, probe.clone());
+                    } else {
+                        p.acts[1] = probe.clone();
+                    }
+                    if let Output::Resp { subs, .. } = &mut p.out {
+                        subs[0].on_err.acts.insert(1, probe);
+                    }
+                }
+            }
             Msg::Exec { c: ct, p, funds }
         } else if c < 60 {
             let to = self.some_addr();
